@@ -466,6 +466,7 @@ def main(argv):
     )
     if discharged == 0:
         ev["coverage"]["discharged"] = 0
+    os.makedirs(outdir, exist_ok=True)
     if ALT:
         with open(os.path.join(outdir, "evidence.json"), "w") as f:
             json.dump(ev, f, indent=1, default=str)
